@@ -256,7 +256,34 @@ impl Campaign for StressCampaign {
         }
         // final drop of the shared client flushes the rest
         match Arc::try_unwrap(client) {
-            Ok(c) => drop(c),
+            Ok(c) => {
+                if queue_clones.is_empty() {
+                    drop(c)
+                } else {
+                    // the last handles of the queuing sink (the client's and the clones) go away on
+                    // different threads at the same moment
+                    let n = queue_clones.len() + 1;
+                    let barrier = Arc::new(std::sync::Barrier::new(n));
+                    let mut hs = Vec::new();
+                    let b0 = barrier.clone();
+                    hs.push(std::thread::spawn(move || {
+                        b0.wait();
+                        drop(c)
+                    }));
+                    for q in queue_clones.drain(..) {
+                        let b = barrier.clone();
+                        hs.push(std::thread::spawn(move || {
+                            b.wait();
+                            drop(q)
+                        }));
+                    }
+                    for h in hs {
+                        if h.join().is_err() {
+                            panics.push("dropping a handle of the queuing sink panicked".into());
+                        }
+                    }
+                }
+            }
             Err(_) => panics.push("client still shared after join".into()),
         }
         drop(queue_clones);
